@@ -65,7 +65,12 @@ def run_games(games_dict):
             logging.info(f"Running example: {name}")
             start = time.time()
             sgame = StochasticGame(**game_copy)
-            n_transitions = sgame.count_transitions()
+            try:
+                n_transitions = sgame.count_transitions()
+            except TypeError:
+                # some state's transitions are not a sized collection (e.g. None):
+                # solve() below rejects the game and the error is recorded as usual
+                n_transitions = 0
             if prev_game_had_solution:
                 try:
                     final_strategies, reachability_strategies, rewards, probabilities, iterations_reach, iterations_rew, reach_min_rewards, rewards_min_reach = sgame.solve()
